@@ -13,6 +13,7 @@ def main() -> int:
     pid = a.pid.upper()
     os.environ[core.GUARD] = "1"
     core.use_repo()
+    core.quiet()
     try:
         mod = importlib.import_module("harness.checks." + pid.lower())
     except ModuleNotFoundError as ex:
